@@ -57,6 +57,12 @@ def views (kv : KV) : String :=
       else "unsupported"
     | _ => "bad-op"
 
+/-- `xmute pair=<k> sa=<size_of A> sb=<size_of B>`: the regenerated size check of `const_transmute` -/
+def xmute (kv : KV) : String :=
+  match kv.nat? "sa", kv.nat? "sb" with
+  | some a, some b => (match constTransmute a b with | .ok _ => "res=ok" | _ => "res=panic")
+  | _, _ => "bad-op"
+
 def chunks (kv : KV) : String :=
   match kv.nat? "n", kv.nat? "l" with
   | some n, some l =>
